@@ -409,6 +409,12 @@ impl Session {
                 v["ok"] = json!(true);
                 v
             }
+            "kill" => {
+                // a signal from outside while the debuggee is stopped (it becomes pending)
+                let pid = self.pid();
+                let r = unsafe { libc::kill(pid, u("sig") as i32) };
+                json!({"ok": r == 0, "kind": "sent"})
+            }
             "values" => crate::valw::values(self, cmd),
             "dqe" => crate::valw::dqe(self, cmd),
             "c15_sweep" => {
